@@ -19,11 +19,16 @@ import wiregen as wg
 from checks.c02 import fields
 
 
+PLACES = ["", "", "", "@8", "@16", "@112", "@4096", "@recv", "@recv", "@recv", "@3", "@4"]
+
+
 def plan(ctx, thorough):
-    """cases: dict(stream, op, api, ty, t, bo, prefix, toks)"""
+    """cases: dict(stream, op, api, ty, t, bo, prefix, toks, place)"""
     r = ctx.sub_rng("c01")
+    rp = ctx.sub_rng("c01-place")
     cat = wg.catalogue()
-    monly = wg.catalogue_marshal_only()
+    # a typed variant around a Rust type whose signature the protocol forbids cannot be written (C02's subject)
+    monly = [ty for ty in wg.catalogue_marshal_only() if not wg.forbidden_variant_content(wg.parse_ext(ty))]
     n_rt, n_rp = (48, 24) if thorough else (6, 4)
     cases = []
     for line in wg.corpus_lines("C01"):
@@ -65,13 +70,17 @@ def plan(ctx, thorough):
             cases.append({"stream": "big", "op": "RT", "api": "typed", "ty": ty, "t": t, "bo": bo, "prefix": rb.randrange(16), "toks": toks, "cls": cls})
         cases.append({"stream": "big", "op": rb.choice(["RP", "RPR", "RPX"]), "api": "param", "ty": ty, "t": t, "bo": rb.choice(["le", "be"]),
                       "prefix": rb.randrange(16), "toks": toks, "cls": cls})
+    # where the body that is read lives: offset 0 (as built), behind n foreign bytes (from_parts with buf_offset n; 3 and 4 are
+    # normalised to 0 by from_parts), or as the receive path delivers it (behind the header of a marshalled message)
+    for c in cases:
+        c["place"] = "" if c["stream"] == "corpus" else rp.choice(PLACES)
     return cases
 
 
 def line_of(c):
     if c["op"] == "RT":
-        return "RT %s %s %d %s" % (c["ty"], c["bo"], c["prefix"], " ".join(c["toks"]))
-    return "%s %s %d %s" % (c["op"], c["bo"], c["prefix"], " ".join(c["toks"]))
+        return "RT%s %s %s %d %s" % (c.get("place", ""), c["ty"], c["bo"], c["prefix"], " ".join(c["toks"]))
+    return "%s%s %s %d %s" % (c["op"], c.get("place", ""), c["bo"], c["prefix"], " ".join(c["toks"]))
 
 
 def run(ctx):
@@ -130,6 +139,7 @@ def run(ctx):
         ctx.count("bo:" + c["bo"])
         ctx.count("prefix%8=" + str(prefix % 8))
         ctx.count("kind:" + t[0])
+        ctx.count("body-at:" + (c["place"][1:] or "0") + "/" + fields(li).get("place", "?"))
         for fl in wg.flavours(c["ty"]):
             if c["op"] == "RT":
                 ctx.count("rust-flavour:" + fl)
@@ -181,7 +191,8 @@ def run(ctx):
                            "pairs with all 8 phases": sum(1 for v in phases.values() if len(v) == 8)}
     nbig = len(big)
     ctx.rule = ("case = (API: typed get::<T> | dynamic get_param from an owned / borrowing / alternating Param tree, catalogue type, byte order, "
-                "prefix, value). Stream 1: %d types (%d catalogue types + %d marshal-only 5-tuple types, written typed and read dynamically) x "
+                "prefix, value, where the body that is read lives: offset 0, from_parts behind 8/16/112/4096 (or 3/4: normalised) foreign bytes, or the "
+                "receive path marshal + unmarshal_next_message - counts in body-at:*). Stream 1: %d types (%d catalogue types + %d marshal-only 5-tuple types, written typed and read dynamically) x "
                 "{typed: %d cases, param: %d cases} plus one value (thorough: 4) wrapped in a params::Variant that is written and read through the typed API; the prefix is drawn uniformly from 0..15 independently of the API (a random permutation of "
                 "the 8 phases taken in turn, plus 0 or 8), so every (type, API) pair saw at least %d distinct phases mod 8 in this run; values "
                 "boundary-biased and encodable. Stream 2 (big, %d cases): length fields >= 64 KiB, strings of 255..70000 bytes, 64..100 "
